@@ -41,6 +41,7 @@ type refSite struct {
 	chain bool
 	list  bool
 	want  string // canonical value of the subtree that was moved
+	orig  *model.Node
 }
 
 func (s refSite) String() string {
@@ -169,6 +170,7 @@ func buildRefTree(r *rand.Rand, a *model.Node, fos []fopt, decoys []decoy) (*mod
 		s.key = "r" + strconv.Itoa(i)
 		orig := swapAt(a.Copy(), s.path, model.Nil()) // the literal value (references inlined)
 		s.want = orig.Canon()
+		s.orig = orig
 		s.list = len(orig.D) == 0
 		moved := swapAt(t, s.path, model.P("${"+s.key+"}"))
 		if s.chain {
@@ -215,4 +217,22 @@ func mergeLibRef(aRef, b *model.Node, sites []refSite, opts []ucfg.Option) (got 
 		}
 	}
 	return model.CanonIfc(m) + "|" + model.CanonIfc(l), problem, nil
+}
+
+// withReferenced returns y naming the referenced settings as well, with the
+// (literal) values they have in the destination. Under a global ReplaceValues
+// the top level keeps only what the new value names: this way the settings the
+// references point to survive, with the value they had.
+func withReferenced(y *model.Node, sites []refSite) *model.Node {
+	t := y.Copy()
+	if t.D == nil {
+		t.D = map[string]*model.Node{}
+	}
+	for _, s := range sites {
+		t.D[s.key] = s.orig.Copy()
+		if s.chain {
+			t.D[s.key+"x"] = s.orig.Copy()
+		}
+	}
+	return t
 }
